@@ -300,6 +300,22 @@ func (m *Machine) builtin(name string, args []Value, cc *ssa.CallCommon) Value {
 			}
 			return Slice{arr: &arr, off: 0, len: n, cap: 2 * n, et: d.et}
 		}
+	case "min", "max":
+		r := args[0].(*Term)
+		signed := isSigned(cc.Args[0].Type())
+		lt := "bvult"
+		if signed {
+			lt = "bvslt"
+		}
+		for _, a := range args[1:] {
+			t := a.(*Term)
+			if name == "min" {
+				r = Ite(Cmp(lt, t, r), t, r)
+			} else {
+				r = Ite(Cmp(lt, r, t), t, r)
+			}
+		}
+		return r
 	case "ssa:wrapnilchk":
 		if _, ok := args[0].(NilPtr); ok {
 			m.require(False, "panic", "nil receiver in wrapper")
